@@ -24,6 +24,26 @@ Theorem C07_on_decoded : forall bs b, from_cbor bs = Ok b -> reserved_clear b = 
   (validate b = [] <-> rules b = true).
 Proof. intros bs b H. apply validate_iff_rules. eapply from_cbor_image; eassumption. Qed.
 
+(* beyond the property's quantifier ("every decodable bundle"): the same equivalence for EVERY bundle value, decoded or built through the
+   public API with any widths, CRC states and mismatched block data - provided no block of type 1 carries CanonicalData::Unknown, the one
+   corner where validate (which accepts Unknown under any block type and then finds no payload data) and the rule list differ
+   (C07_ex_unknown_payload); every decodable bundle satisfies the proviso (C07_decodable_typed) *)
+Theorem C07_validate_iff_any : forall b, typed_payload b = true -> reserved_clear b = true -> (validate b = [] <-> rules b = true).
+Proof. exact validate_iff_rules_any. Qed.
+Theorem C07_decodable_typed : forall b, decodable_shape b = true -> typed_payload b = true.
+Proof. exact shape_typed_payload. Qed.
+Example C07_ex_unknown_payload :
+  let b := mkbundle (b_primary (mkbundle (mkprimary 7 4 CrcNo (Dtn 1 (map n2b [47;47;97;47])) (Ipn 2 1 1) eid_none 5 0 1000 0 0) []))
+                    [mkcanonical 1 1 0 CrcNo (Unknown [])] in
+  typed_payload b = false /\ validate b = [VNoPayload] /\ rules b = true.
+Proof. vm_compute. repeat split; reflexivity. Qed.
+(* an API-built bundle with data that does not belong to the block type is rejected, as the rule list says *)
+Example C07_ex_api_mismatch :
+  let b := mkbundle (mkprimary 7 4 CrcNo (Dtn 1 (map n2b [47;47;97;47])) (Ipn 2 1 1) eid_none 5 0 1000 0 0)
+                    [mkcanonical 7 2 0 CrcNo (HopCount 3 1); mkcanonical 1 1 0 CrcNo (Data [])] in
+  typed_payload b = true /\ reserved_clear b = true /\ validate b <> [] /\ rules b = false.
+Proof. vm_compute. repeat split; try reflexivity. discriminate. Qed.
+
 (* non-vacuity: a valid 3-block bundle, and the creation-time-zero rule in both directions *)
 Definition ex_valid : bundle :=
   mkbundle (mkprimary 7 4 CrcNo (Dtn 1 (map n2b [47;47;97;47])) (Ipn 2 1 1) eid_none 0 0 1000 0 0)
@@ -55,6 +75,8 @@ Print Assumptions C07_decoded_shape.
 Print Assumptions C07_validate_iff.
 Print Assumptions C07_rejects_nonempty.
 Print Assumptions C07_on_decoded.
+Print Assumptions C07_validate_iff_any.
+Print Assumptions C07_decodable_typed.
 Print Assumptions C07_tie_block_flags.
 Print Assumptions C07_tie_bundle_flags.
 Print Assumptions C07_tie_rule_space.
